@@ -164,6 +164,9 @@ func main() {
 		os.Exit(2)
 	}
 	cmd := os.Args[1]
+	if extraCommand(cmd, os.Args[2:]) {
+		return
+	}
 	fs := flag.NewFlagSet(cmd, flag.ExitOnError)
 	scen := fs.String("scen", "", "scenario file (ndjson)")
 	out := fs.String("out", "", "output trace file")
@@ -200,9 +203,7 @@ func main() {
 			os.Exit(2)
 		}
 	default:
-		if !extraCommand(cmd, os.Args[2:]) {
-			fmt.Fprintln(os.Stderr, "abdrive: unknown command", cmd)
-			os.Exit(2)
-		}
+		fmt.Fprintln(os.Stderr, "abdrive: unknown command", cmd)
+		os.Exit(2)
 	}
 }
